@@ -9,7 +9,7 @@ import (
 )
 
 // verif:harness props=C12 tier=quick weight=120 qtimeout=20000
-// verif:bounds token bucket with burst 1..3 and any rate in (0,1000] req/s; k=3 arrivals (thorough 4) at ARBITRARY instants >= the bucket's creation time (not necessarily in order: the clock is read before the bucket's mutex is taken); float64 under the standard rounding model; bound: admitted <= burst + rate*(latest arrival - creation) + absolute slack 1e-6
+// verif:bounds token bucket with burst 1..3 and any rate in (0,1000] req/s; k=3 arrivals (thorough 4) at ARBITRARY instants >= the bucket's creation time (not necessarily in order: the clock is read before the bucket's mutex is taken); float64 under the standard rounding model; bounds: admitted <= burst + rate*(latest arrival - creation) + absolute slack 1e-6, and the same bound for EVERY window of consecutive calls i..j over the hull of their instants
 func VerifC12RateLimiterWindow() {
 	vrt.IntMode()
 	k := 3
@@ -22,13 +22,17 @@ func VerifC12RateLimiterWindow() {
 	l := newTokenBucketLimiter(rate, burst, t0)
 	admitted := 0
 	latest := t0
+	times := make([]time.Time, k)
+	got := make([]bool, k)
 	for i := 0; i < k; i++ {
 		t := vrt.Time("arrival")
 		vrt.Assume(!t.Before(t0) && t.Sub(t0) < 100*time.Second)
 		if t.After(latest) {
 			latest = t
 		}
-		if l.AllowAt(t) {
+		times[i] = t
+		got[i] = l.AllowAt(t)
+		if got[i] {
 			admitted++
 		}
 	}
@@ -36,8 +40,28 @@ func VerifC12RateLimiterWindow() {
 	window := float64(latest.Sub(t0)) / 1e9
 	limit := float64(burst) + rate*window + 1e-6
 	ok := float64(admitted) <= limit
+	// ANY window, not only the one that starts at the bucket's creation: the calls i..j, over the hull of their instants
+	okAny := true
+	for i := 0; i < k; i++ {
+		lo, hi := times[i], times[i]
+		n := 0
+		for j := i; j < k; j++ {
+			if times[j].Before(lo) {
+				lo = times[j]
+			}
+			if times[j].After(hi) {
+				hi = times[j]
+			}
+			if got[j] {
+				n++
+			}
+			w := float64(hi.Sub(lo)) / 1e9
+			okAny = okAny && float64(n) <= float64(burst)+rate*w+1e-6
+		}
+	}
 	vrt.ExactEnd()
 	vrt.Assert("C12.rate.admitted-at-most-burst-plus-rate-times-window", ok)
+	vrt.Assert("C12.rate.any-window-admits-at-most-burst-plus-rate-times-its-length", okAny)
 }
 
 // verif:harness props=C12 tier=quick weight=40 qtimeout=20000
@@ -72,6 +96,7 @@ func VerifC12RateLimiterStep() {
 	vrt.ExactEnd()
 	vrt.Assert("C12.rate.step-keeps-0<=tokens<=burst", okInv)
 	vrt.Assert("C12.rate.refill-clock-never-moves-backwards", !l.last.Before(last))
+	vrt.Assert("C12.rate.refill-is-accounted-up-to-the-arrival", d <= 0 || l.last.Equal(t))
 	vrt.Assert("C12.rate.step-spends-one-token-iff-admitted", okSpend)
 	vrt.Assert("C12.rate.admits-iff-a-whole-token-is-available", okAdmit)
 }
